@@ -512,7 +512,15 @@ func runHistory(rep *vevid.Report, h history) {
 	}
 }
 
+// recoverImage evaluates one crash image twice: the post-recovery flush runs after a second recovery of the
+// recovered state (idempotence), and - on a fresh copy of the image - directly after the first recovery (every
+// recovery allocates a file number for its new manifest, so the second one can hide a wrongly restored allocator).
 func recoverImage(rep *vevid.Report, h history, p *vcrashfs.Point, n note) {
+	recoverImageVariant(rep, h, p, n, true)
+	recoverImageVariant(rep, h, p, n, false)
+}
+
+func recoverImageVariant(rep *vevid.Report, h history, p *vcrashfs.Point, n note, twice bool) {
 	scen := "history-len=" + fmt.Sprint(len(h.Ops))
 	where := fmt.Sprintf("history %s, crash after seam call #%d [%s] (in flight: %s): ", h.String(), p.Seq, p.Label, n.InFlight)
 	viol := func(clause, site, detail string) {
@@ -543,25 +551,29 @@ func recoverImage(rep *vevid.Report, h history, p *vcrashfs.Point, n note) {
 	}
 	wantA, wantB := n.Acked.canon(h.Cfg.Rollup), n.After.canon(h.Cfg.Rollup)
 	got, probs := observe(st, h.Cfg.Rollup)
-	if got != wantA && got != wantB {
-		viol("recovered-content", "kv.Snapshot", fmt.Sprintf("recovered store shows %s; acknowledged content is %s, with the in-flight operation applied entirely it is %s", got, wantA, wantB))
-	}
-	for _, pr := range probs {
-		viol("recovered-files", "kv.Snapshot", pr)
-	}
-	rep.Outcome("rec:" + got)
-	// idempotence: recovering the recovered state again changes nothing
-	_ = kv.VerifCloseStore(st)
-	st = open("second recovery")
-	if st == nil {
-		return
-	}
-	got2, probs2 := observe(st, h.Cfg.Rollup)
-	if got2 != got {
-		viol("recovery-idempotent", "kv.newStore", fmt.Sprintf("first recovery shows %s, recovering again shows %s", got, got2))
-	}
-	for _, pr := range probs2 {
-		viol("recovered-files", "kv.Snapshot", "second recovery: "+pr)
+	got2 := got
+	if twice {
+		if got != wantA && got != wantB {
+			viol("recovered-content", "kv.Snapshot", fmt.Sprintf("recovered store shows %s; acknowledged content is %s, with the in-flight operation applied entirely it is %s", got, wantA, wantB))
+		}
+		for _, pr := range probs {
+			viol("recovered-files", "kv.Snapshot", pr)
+		}
+		rep.Outcome("rec:" + got)
+		// idempotence: recovering the recovered state again changes nothing
+		_ = kv.VerifCloseStore(st)
+		st = open("second recovery")
+		if st == nil {
+			return
+		}
+		var probs2 []string
+		got2, probs2 = observe(st, h.Cfg.Rollup)
+		if got2 != got {
+			viol("recovery-idempotent", "kv.newStore", fmt.Sprintf("first recovery shows %s, recovering again shows %s", got, got2))
+		}
+		for _, pr := range probs2 {
+			viol("recovered-files", "kv.Snapshot", "second recovery: "+pr)
+		}
 	}
 	// a flush after recovery: fresh file number, nothing else changes, survives another reopen
 	fam := st.GetFamily("a")
